@@ -139,6 +139,8 @@ func verifC07x(tableLen, colLen, textLen, fmtSet int, mode string, quoteOnly boo
 
 func VerifHarness_C07_postgres_atlas()             { verifC07(1, 1, 0, "main") }
 func VerifHarness_C07_postgres_atlas_names2()      { verifC07(2, 0, 0, "main") }
+func VerifHarness_C07_postgres_atlas_names2t()     { verifC07x(2, 0, 0, 0, "main", false) }
+func VerifHarness_C07_postgres_atlas_names2c()     { verifC07x(0, 2, 0, 0, "main", false) }
 func VerifHarness_C07_postgres_atlas_texts2()      { verifC07(0, 2, 0, "main") }
 func VerifHarness_C07_postgres_atlas_q3()          { verifC07x(3, 1, 0, 0, "main", true) }
 func VerifHarness_C07_postgres_atlas_n1()          { verifC07(1, 0, 0, "main") }
